@@ -15,6 +15,7 @@ import (
 	"net/http/httptest"
 	"os"
 	"path/filepath"
+	"slices"
 	"strconv"
 	"strings"
 	"sync"
@@ -38,9 +39,22 @@ const (
 var kindNames = []string{"HonoursRange", "IgnoresRange", "RejectsRange"}
 var connNames = []string{"CServe", "CErr", "CStatus", "(CServeAs HonoursRange)", "(CServeAs IgnoresRange)", "(CServeAs RejectsRange)"}
 
-// noLen marks a connection whose response does not announce its length (ContentLength = -1);
-// the current reader ignores the length, so the model has no such notion
+// noLen marks a connection whose response does not announce its length (ContentLength = -1)
+// but is framed (chunked): the current reader ignores the length, so the model has no such notion
 const noLen = 1 << 8
+
+// closeDelim marks a close-delimited response (no Content-Length, not chunked) whose
+// connection is closed cleanly after n body bytes: cClose(kind, n) = CCloseDelim kind n
+const closeDelim = 1 << 9
+
+func cClose(kind, n int) int { return (3 + kind) | closeDelim | n<<12 }
+
+func connText(c int) string {
+	if c&closeDelim != 0 {
+		return fmt.Sprintf("(CCloseDelim %s %s)", kindNames[c&0xff-3], gal.Nat(c>>12))
+	}
+	return connNames[c&0xff]
+}
 
 func genData(seed, n int) []byte {
 	b := make([]byte, n)
@@ -55,6 +69,7 @@ func genData(seed, n int) []byte {
 type env struct {
 	data  []byte
 	kind  int
+	bare  bool // error responses carry no body (net/http: Body == http.NoBody)
 	reads []rdEv
 	conns []int
 	reqs  []int // -1 = no Range header
@@ -116,8 +131,12 @@ func (e *env) RoundTrip(req *http.Request) (*http.Response, error) {
 		c = e.conns[0]
 		e.conns = e.conns[1:]
 	}
-	unknownLen := c&noLen != 0
-	c &^= noLen
+	unknownLen := c&(noLen|closeDelim) != 0
+	upto := -1
+	if c&closeDelim != 0 {
+		upto = c >> 12
+	}
+	c &= 0xff
 	kind := e.kind
 	if c >= 3 {
 		kind = c - 3
@@ -127,6 +146,14 @@ func (e *env) RoundTrip(req *http.Request) (*http.Response, error) {
 		cl := int64(len(body))
 		if unknownLen {
 			cl = -1
+		}
+		if upto >= 0 && upto < len(body) {
+			body = body[:upto] // clean close: the transport reports EOF here
+		}
+		if e.bare && code >= 400 && upto < 0 {
+			// what net/http makes of "Content-Length: 0"
+			return &http.Response{StatusCode: code, Status: strconv.Itoa(code), Proto: "HTTP/1.1", ProtoMajor: 1, ProtoMinor: 1,
+				Header: http.Header{}, Body: http.NoBody, ContentLength: 0, Request: req}
 		}
 		return &http.Response{StatusCode: code, Status: strconv.Itoa(code), Proto: "HTTP/1.1", ProtoMajor: 1, ProtoMinor: 1,
 			Header: http.Header{}, Body: &sbody{e: e, rest: body}, ContentLength: cl, Request: req}
@@ -176,6 +203,11 @@ func runScripted(e *env, bufs []int) (opened bool, outs []obsRead) {
 	if err != nil {
 		return false, nil
 	}
+	if resp.StatusCode != http.StatusOK {
+		// what FetchPackage and fetchRepositoryIndex do with it
+		resp.Body.Close()
+		return false, nil
+	}
 	for _, n := range bufs {
 		p := make([]byte, n)
 		k, err := resp.Body.Read(p)
@@ -196,7 +228,7 @@ func galReads(rs []rdEv) string {
 func galConns(cs []int) string {
 	it := make([]string, len(cs))
 	for i, c := range cs {
-		it[i] = connNames[c&^noLen]
+		it[i] = connText(c)
 	}
 	return gal.List(it)
 }
@@ -228,20 +260,98 @@ func galReqs(rs []int) string {
 
 type scase struct {
 	Kind   string `json:"kind"`
+	Bare   bool   `json:"error_responses_without_body"`
 	Seed   int    `json:"data_seed"`
 	Len    int    `json:"data_len"`
 	Reads  []rdEv `json:"reads"`
 	Conns  []int  `json:"conns"`
+	ConnsT string `json:"conns_text"`
 	Bufs   []int  `json:"bufs"`
 	Opened bool   `json:"opened"`
 	NReads int    `json:"observed_reads"`
+	Live   bool   `json:"tolerated"`
+}
+
+// tolerated mirrors Spec/TransportSpec.v (tolerated) for the distribution
+// buckets only; the judgement is made in Coq.
+func skipOK(left int, evs []rdEv) ([]rdEv, bool) {
+	for left > 0 {
+		if len(evs) == 0 {
+			return nil, true
+		}
+		ev := evs[0]
+		if ev.Fail {
+			return nil, false
+		}
+		left -= min(max(1, ev.K), min(8192, left))
+		evs = evs[1:]
+	}
+	return evs, true
+}
+
+func toleratedGo(dlen, kind int, bufs []int, evs []rdEv, conns []int) bool {
+	for _, c := range conns {
+		if c != cServe {
+			return false
+		}
+	}
+	if len(bufs) <= dlen {
+		return false
+	}
+	p := 0
+	for _, lenp := range bufs {
+		if lenp == 0 {
+			return false
+		}
+		done := false
+		for _, retry := range []bool{true, true, false} {
+			if len(evs) == 0 {
+				p += min(lenp, dlen-p)
+				done = true
+				break
+			}
+			ev := evs[0]
+			evs = evs[1:]
+			if !ev.Fail {
+				p += min(max(1, ev.K), min(lenp, dlen-p))
+				done = true
+				break
+			}
+			if !retry {
+				return false
+			}
+			if p != 0 {
+				switch kind {
+				case 0:
+					if p >= dlen {
+						return false
+					}
+				case 1:
+					var ok bool
+					if evs, ok = skipOK(p, evs); !ok {
+						return false
+					}
+				default:
+					return false
+				}
+			}
+		}
+		if !done {
+			return false
+		}
+	}
+	return true
 }
 
 func scriptedCase(w *gal.Writer, kind, dseed, dlen int, reads []rdEv, conns []int, bufs []int) {
-	e := &env{data: genData(dseed, dlen), kind: kind, reads: append([]rdEv(nil), reads...), conns: append([]int(nil), conns...)}
+	scriptedCaseB(w, kind, false, dseed, dlen, reads, conns, bufs)
+}
+
+func scriptedCaseB(w *gal.Writer, kind int, bare bool, dseed, dlen int, reads []rdEv, conns []int, bufs []int) {
+	e := &env{data: genData(dseed, dlen), kind: kind, bare: bare, reads: append([]rdEv(nil), reads...), conns: append([]int(nil), conns...)}
 	opened, outs := runScripted(e, bufs)
-	term := fmt.Sprintf("{| c_kind := %s; c_seed := %s; c_len := %s; c_reads := %s; c_conns := %s; c_bufs := %s; o_opened := %s; o_outs := %s; o_reqs := %s |}",
-		kindNames[kind], gal.Nat(dseed), gal.Nat(dlen), galReads(reads), galConns(conns), galNats(bufs), gal.Bool(opened), galOuts(outs), galReqs(e.reqs))
+	term := fmt.Sprintf("{| c_kind := %s; c_bare := %s; c_seed := %s; c_len := %s; c_reads := %s; c_conns := %s; c_bufs := %s; o_opened := %s; o_outs := %s; o_reqs := %s |}",
+		kindNames[kind], gal.Bool(bare), gal.Nat(dseed), gal.Nat(dlen), galReads(reads), galConns(conns), galNats(bufs), gal.Bool(opened), galOuts(outs), galReqs(e.reqs))
 	nf := 0
 	for _, r := range reads {
 		if r.Fail {
@@ -250,13 +360,26 @@ func scriptedCase(w *gal.Writer, kind, dseed, dlen int, reads []rdEv, conns []in
 	}
 	mixed := ""
 	for _, c := range conns {
-		if c&^noLen >= 3 {
+		if c&0xff >= 3 {
 			mixed = "/mixed-backends"
 		}
 	}
+	for _, c := range conns {
+		if c&closeDelim != 0 {
+			mixed += "/close-delimited"
+			break
+		}
+	}
+	live := toleratedGo(dlen, kind, bufs, reads, conns)
+	if live {
+		mixed += "/tolerated"
+	}
+	if bare {
+		mixed += "/bare-errors"
+	}
 	class := fmt.Sprintf("%s/faults=%d/conn-events=%d%s", kindNames[kind], min(nf, 4), min(len(conns), 3), mixed)
 	w.Add(gal.Case{Term: term, Class: class, Trivial: nf == 0 && len(conns) == 0,
-		Desc: scase{kindNames[kind], dseed, dlen, reads, conns, bufs, opened, len(outs)}})
+		Desc: scase{kindNames[kind], bare, dseed, dlen, reads, conns, galConns(conns), bufs, opened, len(outs), live}})
 }
 
 func fill(n, v int) []int {
@@ -288,6 +411,32 @@ func scriptedStage(dir string, seed uint64, tier string) error {
 		scriptedCase(w, kind, 4, 40, []rdEv{{30, false, false}, {0, true, false}, {5, false, false}, {0, true, false}}, []int{cServe | noLen, cServe | noLen, cServe}, fill(8, 40))
 		scriptedCase(w, kind, 2, 9000, []rdEv{{8500, false, false}, {0, true, false}, {100, false, false}, {8192, false, false}}, nil, fill(4, 8600)) // discard > 8192
 		scriptedCase(w, kind, 2, 9000, []rdEv{{8500, false, false}, {0, true, false}, {100, false, false}, {50, true, false}}, nil, fill(4, 8600))   // failure while discarding
+		// c20_live_416_corner_refuted: ONE fault, after the last byte was handed over and before EOF was seen
+		scriptedCase(w, kind, 1, 3, []rdEv{{3, false, false}, {0, true, false}}, nil, fill(4, 3))
+		scriptedCase(w, kind, 1, 13, []rdEv{{13, false, false}, {0, true, false}}, nil, fill(14, 13))
+		scriptedCase(w, kind, 1, 13, []rdEv{{6, false, false}, {7, false, false}, {0, true, false}}, nil, fill(14, 7))
+		// the same against a server whose 416 has no body: reset returns before it looks at the status, every retry is spent
+		scriptedCaseB(w, kind, true, 1, 3, []rdEv{{3, false, false}, {0, true, false}}, nil, fill(4, 3))
+		scriptedCaseB(w, kind, true, 1, 13, []rdEv{{2, false, false}, {1, true, false}}, []int{cServe, cStatus}, fill(8, 5)) // 503 without body on resume
+		scriptedCaseB(w, kind, true, 1, 13, []rdEv{{2, false, false}, {1, true, false}}, []int{cServe, cStatus, cServe}, fill(8, 5)) // ... then a healthy connection
+		scriptedCaseB(w, kind, true, 1, 13, nil, []int{cStatus}, fill(2, 4))                                                  // 503 without body on open: the callers refuse the status
+		scriptedCaseB(w, kind, true, 1, 13, []rdEv{{3, true, false}}, nil, fill(6, 7))
+		// c20_live_restart_cut_refuted: the second fault hits the restarted connection while it discards
+		scriptedCase(w, kind, 1, 5, []rdEv{{2, false, false}, {1, true, false}, {1, true, false}}, nil, fill(6, 2))
+		scriptedCase(w, kind, 1, 13, []rdEv{{6, false, false}, {0, true, false}, {3, false, false}, {0, true, false}}, nil, fill(14, 6))
+		// ... and the one the accounting is stricter about: the fault arrives with the last byte to discard (io.CopyN swallows it)
+		scriptedCase(w, kind, 1, 5, []rdEv{{2, false, false}, {1, true, false}, {1, false, false}, {1, true, false}}, nil, fill(6, 2))
+		// c20_live: two faults inside one Read, survived (resume / restart), and two faults in each of two Reads
+		scriptedCase(w, kind, 1, 5, []rdEv{{2, false, false}, {1, true, false}, {0, true, false}}, nil, fill(6, 2))
+		scriptedCase(w, kind, 1, 5, []rdEv{{2, false, false}, {1, true, false}, {2, false, false}, {0, true, false}, {1, false, false}, {1, false, false}}, nil, fill(6, 2))
+		scriptedCase(w, kind, 1, 13, []rdEv{{0, true, false}, {0, true, false}, {5, false, false}, {2, true, false}, {5, false, false}, {0, true, false}, {5, false, false}}, nil, fill(14, 5))
+		// finding C20-F1 (c20_short_body_unframed_refuted): close-delimited response closed cleanly early
+		scriptedCase(w, kind, 1, 5, nil, []int{cClose(kind, 2)}, fill(2, 4))
+		scriptedCase(w, kind, 1, 13, nil, []int{cClose(kind, 0)}, fill(3, 7))
+		scriptedCase(w, kind, 1, 13, nil, []int{cClose(kind, 12)}, fill(4, 7))
+		scriptedCase(w, kind, 1, 13, nil, []int{cClose(kind, 13)}, fill(4, 7))                                          // closed after everything: complete
+		scriptedCase(w, kind, 1, 13, []rdEv{{3, false, false}, {0, true, false}}, []int{cServe, cClose(kind, 4)}, fill(6, 7)) // first response announced 13 bytes, the resumed one is cut cleanly
+		scriptedCase(w, kind, 1, 13, []rdEv{{6, false, false}, {0, true, false}}, []int{cServe, cClose(1, 4)}, fill(6, 6))    // a close-delimited restart too short to reach progress: the discard meets EOF
 	}
 	// enumerated: all single- and double-fault scripts over a 13-byte body
 	bufsizes := []int{1, 7, 64}
@@ -295,11 +444,11 @@ func scriptedStage(dir string, seed uint64, tier string) error {
 		for _, bs := range bufsizes {
 			nb := 13/bs + 4
 			for a := 0; a <= 13; a++ {
-				scriptedCase(w, kind, 3, 13, []rdEv{{a, true, false}}, nil, fill(nb, bs))
+				scriptedCaseB(w, kind, a%2 == 1, 3, 13, []rdEv{{a, true, false}}, nil, fill(nb, bs))
 				if tier == "thorough" || (a%3 == 0) {
 					for b := 0; b <= 13; b += 2 {
-						scriptedCase(w, kind, 3, 13, []rdEv{{a, true, false}, {b, true, false}}, nil, fill(nb, bs))
-						scriptedCase(w, kind, 3, 13, []rdEv{{a, false, false}, {b, true, false}, {1, true, true}}, nil, fill(nb, bs))
+						scriptedCaseB(w, kind, b%4 == 2, 3, 13, []rdEv{{a, true, false}, {b, true, false}}, nil, fill(nb, bs))
+						scriptedCaseB(w, kind, b%4 == 0, 3, 13, []rdEv{{a, false, false}, {b, true, false}, {1, true, true}}, nil, fill(nb, bs))
 					}
 				}
 			}
@@ -333,10 +482,26 @@ func scriptedStage(dir string, seed uint64, tier string) error {
 			if r.Chance(1, 4) {
 				c |= noLen
 			}
+			if r.Chance(1, 12) {
+				c = cClose(r.Intn(3), r.Intn(dlen+2))
+			}
 			conns = append(conns, c)
 		}
 		bs := gal.Pick(r, []int{1, 3, 7, 16, 64, 300, 9000})
 		nb := min(dlen/bs+2+r.Intn(6), 60)
+		if i%3 == 0 {
+			// leaning towards the hypotheses of c20_live: short bodies, every connection served
+			// by the session's kind, sparse faults, more Reads than bytes
+			kind = r.Intn(2)
+			dlen = gal.Pick(r, []int{0, 1, 2, 5, 13, 40})
+			conns = nil
+			reads = nil
+			for j, nev := 0, r.Intn(14); j < nev; j++ {
+				reads = append(reads, rdEv{K: r.Intn(dlen + 2), Fail: r.Chance(1, 4), Eager: r.Chance(1, 4)})
+			}
+			bs = gal.Pick(r, []int{1, 3, 7, 64})
+			nb = dlen + 1 + r.Intn(3)
+		}
 		bufs := fill(nb, bs)
 		if r.Chance(1, 3) {
 			for j := range bufs {
@@ -346,20 +511,34 @@ func scriptedStage(dir string, seed uint64, tier string) error {
 		if r.Chance(1, 20) && nb > 0 {
 			bufs[r.Intn(nb)] = 0
 		}
-		scriptedCase(w, kind, int(r.Intn(1000)), dlen, reads, conns, bufs)
+		scriptedCaseB(w, kind, r.Chance(1, 3), int(r.Intn(1000)), dlen, reads, conns, bufs)
 	}
 	return w.Flush()
 }
 
 // ---- real HTTP: APK.FetchPackage against a server that cuts connections ----
 
+const (
+	frLength = iota // Content-Length
+	frChunked       // Transfer-Encoding: chunked
+	frClose         // neither: the body ends where the connection ends
+)
+
+var framingNames = []string{"content-length", "chunked", "close-delimited"}
+
 type cutServer struct {
-	mu    sync.Mutex
-	data  []byte
-	kind  int
-	cuts  []int // per connection: bytes of body to send before closing; -1 = all
-	reqs  []int
-	chunk bool
+	mu      sync.Mutex
+	data    []byte
+	kind    int
+	cuts    []int // per connection: bytes of body to send before closing; -1 = all
+	reqs    []int
+	framing int
+	fin     bool // cut by a clean close (FIN) instead of a reset (RST)
+	bare    bool // error responses without a body (Content-Length: 0)
+	// what happened, for the expectations handed to Coq
+	effCuts  int  // connections actually cut
+	corner   bool // a connection cut after its last body byte, before the end marker
+	unframed bool // a close-delimited response closed cleanly before its end
 }
 
 func (s *cutServer) ServeHTTP(w http.ResponseWriter, r *http.Request) {
@@ -400,16 +579,60 @@ func (s *cutServer) ServeHTTP(w http.ResponseWriter, r *http.Request) {
 		return
 	}
 	defer conn.Close()
-	fmt.Fprintf(buf, "HTTP/1.1 %d X\r\nContent-Length: %d\r\nConnection: close\r\n\r\n", status, len(body))
-	if cut >= 0 && cut < len(body) {
-		buf.Write(body[:cut])
+	framing := s.framing
+	if status != 200 && status != 206 {
+		framing = frLength
+		if !s.bare {
+			body = []byte("refused\n")
+		}
+		cut = -1
+	}
+	switch framing {
+	case frLength:
+		fmt.Fprintf(buf, "HTTP/1.1 %d X\r\nContent-Length: %d\r\nConnection: close\r\n\r\n", status, len(body))
+	case frChunked:
+		fmt.Fprintf(buf, "HTTP/1.1 %d X\r\nTransfer-Encoding: chunked\r\nConnection: close\r\n\r\n", status)
+	case frClose:
+		fmt.Fprintf(buf, "HTTP/1.1 %d X\r\nConnection: close\r\n\r\n", status)
+	}
+	send := func(b []byte) {
+		if framing != frChunked {
+			buf.Write(b)
+			return
+		}
+		for len(b) > 0 {
+			k := min(len(b), 1000)
+			fmt.Fprintf(buf, "%x\r\n", k)
+			buf.Write(b[:k])
+			buf.WriteString("\r\n")
+			b = b[k:]
+		}
+	}
+	// a chunked body can also be cut after its last byte, before the terminating chunk
+	isCut := cut >= 0 && (cut < len(body) || (cut == len(body) && framing == frChunked && len(body) > 0))
+	if isCut {
+		send(body[:cut])
 		buf.Flush()
-		if tc, ok := conn.(*net.TCPConn); ok {
-			tc.SetLinger(0) // RST, so the client sees an error rather than a clean close
+		s.mu.Lock()
+		s.effCuts++
+		if cut == len(body) {
+			s.corner = true
+		}
+		if s.fin && framing == frClose {
+			s.unframed = true
+		}
+		s.mu.Unlock()
+		if !s.fin {
+			if tc, ok := conn.(*net.TCPConn); ok {
+				tc.SetLinger(0) // RST, so the client sees an error rather than a clean close
+			}
 		}
 		return
 	}
-	buf.Write(body)
+	send(body)
+	if framing == frChunked {
+		buf.WriteString("0\r\n\r\n")
+	}
 	buf.Flush()
 }
 
@@ -417,6 +640,12 @@ type fpkg struct{ url string }
 
 func (f fpkg) URL() string         { return f.url }
 func (f fpkg) PackageName() string { return "pkg" }
+
+type hcorner struct {
+	kind, dlen, framing int
+	fin                 bool
+	cuts                []int
+}
 
 func httpStage(dir string, seed uint64, tier string) error {
 	w := &gal.Writer{Dir: dir, Require: "From Apko Require Import Corr.C20.", Type: "http_case", Check: "check_http", Shard: 400}
@@ -430,15 +659,34 @@ func httpStage(dir string, seed uint64, tier string) error {
 		n = 600
 	}
 	type hdesc struct {
-		Kind  string `json:"kind"`
-		Len   int    `json:"data_len"`
-		Cuts  []int  `json:"cuts"`
-		Got   int    `json:"delivered"`
-		Err   int    `json:"err"`
-		Reqs  []int  `json:"range_requests"`
+		Kind    string `json:"kind"`
+		Len     int    `json:"data_len"`
+		Framing string `json:"framing"`
+		Fin     bool   `json:"clean_close"`
+		Bare    bool   `json:"error_responses_without_body"`
+		Cuts    []int  `json:"cuts"`
+		Got     int    `json:"delivered"`
+		Err     int    `json:"err"`
+		Reqs    []int  `json:"range_requests"`
+		Live    bool   `json:"expected_to_complete"`
+	}
+	// hand-picked corners beyond the six cut patterns below
+	var corners []hcorner
+	for kind := 0; kind < 3; kind++ {
+		corners = append(corners,
+			hcorner{kind, 13, frClose, true, []int{5}},           // finding C20-F1: short body, EOF
+			hcorner{kind, 300, frClose, true, []int{0}},          // ... nothing at all
+			hcorner{kind, 300, frClose, true, []int{150, 10}},    // (the second cut is never reached)
+			hcorner{kind, 300, frClose, false, []int{150}},       // same response reset instead: retried
+			hcorner{kind, 300, frLength, true, []int{150, 200}},  // clean close of a response that announced its length
+			hcorner{kind, 300, frChunked, true, []int{150, 200}}, // ... of a chunked response
+			hcorner{kind, 300, frChunked, false, []int{150, 200}},
+			hcorner{kind, 13, frChunked, true, []int{13}},      // c20_live_416_corner_refuted through net/http: cut after the last byte, before the terminating chunk
+			hcorner{kind, 300, frChunked, true, []int{100, 200}}, // second cut after the last byte of the 206 body (Range-honouring server)
+		)
 	}
 	goJudged := 0
-	for i := 0; i < n; i++ {
+	for i := 0; i < n+len(corners); i++ {
 		kind := r.Intn(3)
 		dlen := gal.Pick(r, []int{1, 13, 300, 4097, 20000})
 		if r.Chance(1, 8) {
@@ -456,10 +704,28 @@ func httpStage(dir string, seed uint64, tier string) error {
 			}
 			cuts = append(cuts, c)
 		}
+		framing, fin := frLength, false
+		if i >= 6 {
+			framing = gal.Pick(r, []int{frLength, frLength, frChunked, frClose})
+			fin = r.Chance(1, 2)
+			if framing == frClose && fin && dlen > 4097 {
+				dlen = 4097 // judged in Coq, where the finding's tag is narrowed
+			}
+			if r.Chance(1, 2) && len(cuts) > 2 {
+				cuts = cuts[:2] // more sessions inside the completion theorem's hypotheses
+			}
+			if r.Chance(1, 3) {
+				slices.Sort(cuts)
+			}
+		}
 		if i < 6 { // fixed corners: cut at 0, at the last byte, after everything
 			cuts = [][]int{{0}, {dlen - 1}, {dlen / 2, 0}, {dlen / 2, dlen / 4, 1}, {1, 1, 1, 1}, {}}[i]
+		} else if i < 6+len(corners) {
+			c := corners[i-6]
+			kind, dlen, framing, fin, cuts = c.kind, c.dlen, c.framing, c.fin, c.cuts
 		}
-		srv := &cutServer{data: genData(dseed, dlen), kind: kind, cuts: append([]int(nil), cuts...)}
+		bare := i%2 == 0
+		srv := &cutServer{data: genData(dseed, dlen), kind: kind, cuts: append([]int(nil), cuts...), framing: framing, fin: fin, bare: bare}
 		ts := httptest.NewServer(srv)
 		rc, err := a.FetchPackage(context.Background(), fpkg{ts.URL + "/p.apk"})
 		var got []byte
@@ -482,10 +748,32 @@ func httpStage(dir string, seed uint64, tier string) error {
 		ts.Close()
 		srv.mu.Lock()
 		reqs := append([]int(nil), srv.reqs...)
+		effCuts, corner, unframed := srv.effCuts, srv.corner, srv.unframed
 		srv.mu.Unlock()
+		// expected to complete (the shape of c20_live seen from the server): every response framed, at
+		// most two connections cut in the whole download (so no Read meets more), none after its last
+		// byte, and the server either honours Range, or restarts with every cut a clean close (all
+		// bytes sent before it arrive) at or after the previous cut (the discard reaches progress)
+		live := !unframed && !corner && effCuts <= 2
+		switch kind {
+		case 0:
+		case 1:
+			prev := 0
+			for j := 0; j < effCuts && j < len(cuts); j++ {
+				if !fin || cuts[j] < prev {
+					live = false
+				}
+				prev = cuts[j]
+			}
+		default:
+			live = live && effCuts == 0
+		}
+		if framing == frClose && !fin {
+			live = live && effCuts == 0 // a reset of a close-delimited response may or may not be seen as an error
+		}
 		errName := []string{"ENone", "EEOF", "EFail"}[ec]
-		term := fmt.Sprintf("{| h_seed := %s; h_len := %s; h_opened := %s; h_got := %s; h_err := %s |}",
-			gal.Nat(dseed), gal.Nat(dlen), gal.Bool(err == nil), gal.Bytes(got), errName)
+		term := fmt.Sprintf("{| h_seed := %s; h_len := %s; h_opened := %s; h_got := %s; h_err := %s; h_unframed := %s; h_live := %s |}",
+			gal.Nat(dseed), gal.Nat(dlen), gal.Bool(err == nil), gal.Bytes(got), errName, gal.Bool(unframed), gal.Bool(live))
 		if dlen > 300 {
 			// larger bodies: the delivered bytes are compared with the server's
 			// here and handed to Coq as "the first k bytes of gen_data" when they
@@ -493,20 +781,30 @@ func httpStage(dir string, seed uint64, tier string) error {
 			// overflows its stack on lists that long)
 			okPrefix := len(got) <= dlen && string(got) == string(srv.data[:len(got)])
 			okEOF := ec != 1 || len(got) == dlen
-			if !okPrefix || !okEOF {
-				fmt.Printf("IMPL-VIOLATION tag=http-short-or-altered-body {\"kind\":%q,\"len\":%d,\"cuts\":%v,\"delivered\":%d,\"err\":%q}\n", kindNames[kind], dlen, cuts, len(got), errName)
+			if dlen > 20000 || !okPrefix {
+				if !okPrefix || !okEOF {
+					fmt.Printf("IMPL-VIOLATION tag=http-short-or-altered-body {\"kind\":%q,\"len\":%d,\"framing\":%q,\"clean_close\":%v,\"cuts\":%v,\"delivered\":%d,\"err\":%q}\n", kindNames[kind], dlen, framingNames[framing], fin, cuts, len(got), errName)
+				}
+				if live && !(err == nil && ec == 1 && len(got) == dlen) {
+					fmt.Printf("IMPL-VIOLATION tag=tolerable-faults-not-survived {\"kind\":%q,\"len\":%d,\"framing\":%q,\"clean_close\":%v,\"cuts\":%v,\"delivered\":%d,\"err\":%q}\n", kindNames[kind], dlen, framingNames[framing], fin, cuts, len(got), errName)
+				}
 			}
 			if dlen > 20000 {
 				goJudged++
 				continue
 			}
 			if okPrefix {
-				term = fmt.Sprintf("{| h_seed := %s; h_len := %s; h_opened := %s; h_got := firstn %s (gen_data %s %s); h_err := %s |}",
-					gal.Nat(dseed), gal.Nat(dlen), gal.Bool(err == nil), gal.Nat(len(got)), gal.Nat(dseed), gal.Nat(dlen), errName)
+				term = fmt.Sprintf("{| h_seed := %s; h_len := %s; h_opened := %s; h_got := firstn %s (gen_data %s %s); h_err := %s; h_unframed := %s; h_live := %s |}",
+					gal.Nat(dseed), gal.Nat(dlen), gal.Bool(err == nil), gal.Nat(len(got)), gal.Nat(dseed), gal.Nat(dlen), errName, gal.Bool(unframed), gal.Bool(live))
 			}
 		}
-		w.Add(gal.Case{Term: term, Class: fmt.Sprintf("%s/cuts=%d/len=%d", kindNames[kind], len(cuts), dlen), Trivial: len(cuts) == 0,
-			Key: fmt.Sprintf("%d/%d/%d/%v", kind, dseed, dlen, cuts), Desc: hdesc{kindNames[kind], dlen, cuts, len(got), ec, reqs}})
+		class := fmt.Sprintf("%s/%s/cuts=%d/len=%d", kindNames[kind], framingNames[framing], effCuts, dlen)
+		if live {
+			class += "/expected-to-complete"
+		}
+		w.Add(gal.Case{Term: term, Class: class, Trivial: len(cuts) == 0,
+			Key: fmt.Sprintf("%d/%d/%d/%d/%v/%v", kind, dseed, dlen, framing, fin, cuts),
+			Desc: hdesc{kindNames[kind], dlen, framingNames[framing], fin, bare, cuts, len(got), ec, reqs, live}})
 	}
 	fmt.Printf("STAT {\"large_bodies_judged_in_go_only\": %d}\n", goJudged)
 	return w.Flush()
